@@ -1,11 +1,13 @@
+\* two kernels in every order/placement/padding, two section layouts, symbol tables of up to 4 entries in every order
 SPECIFICATION Spec
 CONSTANTS
   Deviations = {}
   Kernels <- KQuick
   Layouts <- LQuick
-  Pads = {0, 4}
+  Pads = {4}
+  NoiseFront = {TRUE}
   MaxKernels = 2
-  MaxNoise = 1
-  MaxSwapLen = 3
+  MaxNoise = 0
+  MaxSwapLen = 4
 INVARIANTS TypeOK AlwaysWellFormed LoadIsTruth AutoDetect OthersRefused
 CHECK_DEADLOCK FALSE
